@@ -177,7 +177,7 @@ def check_float_case(chk, it, tname, vt, sb_tu):
             why = 'NaN payload not preserved: emitted %r' % (parts,)
         elif kind == 'inf':
             good = cls == 'inf' and payload == bool(sign)
-            why = 'emitted %sINFINITY' % ('-' if payload else '')
+            why = 'emitted %sINFINITY for a %s infinity' % ('-' if payload else '+', 'negative' if sign else 'positive')
         elif kind == 'negzero':
             good = cls == 'negzero'
             why = 'emitted negative-zero literal'
